@@ -18,9 +18,12 @@ TReset == Is("Reset") /\ info' = [b \in {0} |-> Genesis(Ev.w0)] /\ stored' = {0}
 TMint == Is("Mint") /\ MintS(Ev.b, Ev.p, Ev.num, Ev.ok, Ev.work) /\ UNCHANGED <<stored, pc>>
 TStart == Is("Start") /\ UNCHANGED csvars
 TIns == Is("Ins") /\ InsS(Ev.b) /\ UNCHANGED <<info, pc>>
-\* a verification commit changes no block row; its verdict must agree with the chain's validity
+\* a verification commit changes no block row; its verdict must agree with the chain's validity: a refusal only of an
+\* invalid block; a block that BECAME THE TIP is valid.  "ok" without becoming the tip says nothing: a block that is not
+\* heavier than the tip is stored as an unverified side block without being verified (an invalid equal-work sibling of the
+\* tip gets "ok" - corrected false alarm, design.d/C08.md)
 TVer == /\ Is("Ver") /\ Ev.b \in stored
-        /\ IF Ev.res = "err" THEN ~info[Ev.b].valid ELSE (Ev.res = "ok" => info[Ev.b].valid)
+        /\ IF Ev.res = "err" THEN ~info[Ev.b].valid ELSE ((Ev.res = "ok" /\ Ev.tipd) => info[Ev.b].valid)
         /\ UNCHANGED csvars
 TDel == Is("Del") /\ DelS(Ev.b) /\ UNCHANGED <<info, pc>>
 TCrash == Is("Crash") /\ pc' = "down" /\ UNCHANGED <<info, stored>>
